@@ -362,6 +362,8 @@ def replay(job):
                 raw2 = r.to_binary(dec)
             except Exception as e:
                 return dict(reproduced=True, signature="C07:unopened-block-not-preserved", detail="%s: %s" % (type(e).__name__, e))
+            if r.session_key != key:
+                return dict(reproduced=True, signature="C07:unopened-block-not-preserved", detail="object read from the file has session key %s, file was written with %s: re-writing keeps unopened blocks (old key) next to blocks wrapping a new key" % (r.session_key.hex(), key.hex()))
             for k, x, y in zip(order, walk(raw1)[0], walk(raw2)[0]):
                 if k not in opened and x != y:
                     return dict(reproduced=True, signature="C07:unopened-block-not-preserved", detail="block %s changed on re-write" % k)
